@@ -1,4 +1,1341 @@
-//! logsync: not built yet.
-pub fn run(args: &vh_common::Args) {
-    vh_common::unknown(args)
+//! logsync: conformance harness for `/verif/spec/LogSync` (C19, C20, C21).
+//!
+//! Two real `LogSync::run` futures over two real `SqliteStore`s filled with real signed
+//! operations are driven by hand on a current-thread tokio runtime.  The harness owns only the
+//! leaves: the transport (a FIFO with the capacity semantics of the specification) and a
+//! delegating `LogStore` wrapper around `SqliteStore` that records every query.  Every observable
+//! of a session (store query + result, message written, message taken, broadcast event, return
+//! value) passes a *gate*; the driver grants one event at a time, so it can
+//!
+//! * `replay`: follow a behaviour exported by TLC step by step and compare the observable of
+//!   every step with the one TLC computed, and
+//! * `record`: schedule the two sessions at random (plus random concurrent store mutations and a
+//!   random crash) and write the events in their real order for `Trace_LogSync.tla`.
+//!
+//! Non-termination is decided without a clock: a session that returns `Pending` while it waits at
+//! a gate or at the transport (and not for SQLite) is blocked; both blocked = deadlock.  A busy
+//! spin (no await) is decided by counting polls of the inbound stream after it returned `None`.
+use std::collections::{BTreeMap, HashMap, VecDeque};
+use std::future::{Future, poll_fn};
+use std::pin::Pin;
+use std::sync::{Arc, Mutex};
+use std::task::{Context, Poll};
+
+use futures_util::{Sink, Stream};
+use p2panda_core::{Body, Hash, Operation, SeqNum, SigningKey, VerifyingKey};
+use p2panda_store::logs::LogStore;
+use p2panda_store::operations::OperationStore;
+use p2panda_store::{SqliteError, SqliteStore, Transaction};
+use p2panda_sync::protocols::{LogSync, LogSyncEvent, LogSyncMessage, Logs};
+use p2panda_sync::test_utils::create_operation;
+use p2panda_sync::traits::Protocol;
+use tokio::sync::broadcast;
+use vh_common::{Args, Outcome, Rng, TraceWriter, Value, json, read_ndjson};
+
+type L = usize;
+type E = usize;
+type Msg = LogSyncMessage<L>;
+type Op = Operation<E>;
+type OpId = (usize, usize, u32);
+
+/// Capacity value that stands for "unbounded" in the specification.
+const UNBOUNDED: u64 = 99;
+/// Polls of the inbound stream after it returned `None` that are taken as a busy spin.
+const SPIN_LIMIT: u64 = 20_000;
+
+const PEERS: [&str; 2] = ["A", "B"];
+
+fn peer_idx(p: &str) -> usize {
+    if p == "A" { 0 } else { 1 }
+}
+
+// ------------------------------------------------------------------------------------------
+// World: authors (sorted like the BTreeMaps of the protocol sort them) and their signed chains
+// ------------------------------------------------------------------------------------------
+
+struct World {
+    vks: Vec<VerifyingKey>,
+    ops: HashMap<OpId, (Op, Vec<u8>)>,
+    ids: HashMap<Hash, OpId>,
+    author_idx: HashMap<VerifyingKey, usize>,
+}
+
+impl World {
+    fn new(n_authors: usize, n_logs: usize, max_seq: u32, rng: &mut Rng) -> World {
+        let mut keys: Vec<SigningKey> = (0..n_authors)
+            .map(|_| {
+                let bytes: [u8; 32] = rng.bytes(32).try_into().unwrap();
+                SigningKey::from_bytes(&bytes)
+            })
+            .collect();
+        keys.sort_by_key(|k| k.verifying_key());
+        let vks: Vec<VerifyingKey> = keys.iter().map(|k| k.verifying_key()).collect();
+        let mut ops = HashMap::new();
+        let mut ids = HashMap::new();
+        for (ai, key) in keys.iter().enumerate() {
+            for l in 1..=n_logs {
+                let mut backlink = None;
+                for s in 0..=max_seq {
+                    // bodies of different sizes (header sizes differ with seq/backlink anyway)
+                    let body = Body::new(format!("a{}l{}s{}{}", ai + 1, l, s, "x".repeat((s % 7) as usize)).as_bytes());
+                    let (header, header_bytes) = create_operation(key, &body, s, backlink, l);
+                    let hash = header.hash();
+                    backlink = Some(hash);
+                    let op = Operation { hash, header, body: Some(body) };
+                    ids.insert(hash, (ai + 1, l, s));
+                    ops.insert((ai + 1, l, s), (op, header_bytes));
+                }
+            }
+        }
+        let author_idx = vks.iter().enumerate().map(|(i, vk)| (*vk, i + 1)).collect();
+        World { vks, ops, ids, author_idx }
+    }
+
+    fn vk(&self, a: usize) -> VerifyingKey {
+        self.vks[a - 1]
+    }
+
+    fn op_of_header(&self, header_bytes: &[u8]) -> Option<OpId> {
+        self.ids.get(&Hash::digest(header_bytes)).copied()
+    }
+
+    fn msg_json(&self, m: &Msg) -> Value {
+        match m {
+            LogSyncMessage::Have(h) => {
+                let mut rows = Vec::new();
+                for (vk, logs) in h {
+                    let a = self.author_idx.get(vk).copied().unwrap_or(0);
+                    for (l, s) in logs {
+                        rows.push(json!([a, l, s]));
+                    }
+                }
+                json!({"t": "Have", "h": rows})
+            }
+            LogSyncMessage::PreSync { total_operations, .. } => json!({"t": "PreSync", "n": total_operations}),
+            LogSyncMessage::Operation(header, _) => match self.op_of_header(header) {
+                Some((a, l, s)) => json!({"t": "Op", "a": a, "l": l, "s": s}),
+                None => json!({"t": "Op", "a": 0, "l": 0, "s": 0}),
+            },
+            LogSyncMessage::Done => json!({"t": "Done"}),
+        }
+    }
+}
+
+type Content = BTreeMap<(usize, usize), Vec<u32>>;
+
+async fn store_rows(store: &SqliteStore, world: &World, a: usize, l: usize) -> Vec<u32> {
+    let r = <SqliteStore as LogStore<Op, VerifyingKey, L, SeqNum, Hash>>::get_log_entries(store, &world.vk(a), &l, None, None)
+        .await
+        .expect("query log");
+    r.map(|v| v.into_iter().map(|(op, _)| op.header.seq_num).collect()).unwrap_or_default()
+}
+
+async fn insert_op(store: &SqliteStore, world: &World, id: OpId) {
+    let (op, _) = &world.ops[&id];
+    let permit = store.begin().await.expect("begin");
+    <SqliteStore as OperationStore<Op, Hash>>::insert_operation(store, &op.hash, op, &id.1)
+        .await
+        .expect("insert operation");
+    store.commit(permit).await.expect("commit");
+}
+
+async fn fill_store(store: &SqliteStore, world: &World, content: &Content) {
+    sqlx::query("DELETE FROM operations_v1").execute(store.pool()).await.expect("clear store");
+    let permit = store.begin().await.expect("begin");
+    for ((a, l), seqs) in content {
+        for s in seqs {
+            let (op, _) = &world.ops[&(*a, *l, *s)];
+            <SqliteStore as OperationStore<Op, Hash>>::insert_operation(store, &op.hash, op, l)
+                .await
+                .expect("insert operation");
+        }
+    }
+    store.commit(permit).await.expect("commit");
+}
+
+// ------------------------------------------------------------------------------------------
+// Shared state of one run: transport, gates, event log
+// ------------------------------------------------------------------------------------------
+
+#[derive(Clone, Copy, PartialEq, Eq, Debug)]
+enum Kind {
+    Store,
+    Send,
+    Recv,
+}
+
+#[derive(Clone, Copy, PartialEq, Eq, Debug)]
+enum Grant {
+    Nothing,
+    One(Kind),
+    /// one event of any kind
+    Any,
+    /// one event, but the inbound message is withheld (still in flight)
+    AnyButRecv,
+    /// everything, not consumed
+    Free,
+}
+
+struct Sh {
+    world: Arc<World>,
+    cap: Option<usize>,
+    /// chan[p] is written by p and read by the other peer
+    chan: [VecDeque<Msg>; 2],
+    /// p's sink and stream are dropped (crash or `run` returned an error)
+    gone: [bool; 2],
+    grant: [Grant; 2],
+    attempted: [Option<Kind>; 2],
+    blocked_send: [bool; 2],
+    blocked_recv: [bool; 2],
+    eos_seen: [bool; 2],
+    polls_after_eos: [u64; 2],
+    spin: [bool; 2],
+    last_put: [&'static str; 2],
+    sent: [Vec<&'static str>; 2],
+    delivered: [Vec<OpId>; 2],
+    log: Vec<Value>,
+}
+
+impl Sh {
+    fn allowed(&mut self, p: usize, kind: Kind) -> bool {
+        let ok = match self.grant[p] {
+            Grant::Nothing => false,
+            Grant::One(k) => k == kind,
+            Grant::Any | Grant::Free => true,
+            Grant::AnyButRecv => kind != Kind::Recv,
+        };
+        if !ok {
+            self.attempted[p] = Some(kind);
+        }
+        ok
+    }
+
+    fn consume(&mut self, p: usize) {
+        if self.grant[p] != Grant::Free {
+            self.grant[p] = Grant::Nothing;
+        }
+    }
+
+    fn flushed(&self, p: usize) -> bool {
+        match self.cap {
+            None => true,
+            Some(c) => self.chan[p].len() <= c,
+        }
+    }
+}
+
+type Shared = Arc<Mutex<Sh>>;
+
+struct Gate {
+    sh: Shared,
+    p: usize,
+    kind: Kind,
+}
+
+impl Future for Gate {
+    type Output = ();
+    fn poll(self: Pin<&mut Self>, _cx: &mut Context<'_>) -> Poll<()> {
+        let mut sh = self.sh.lock().unwrap();
+        if sh.allowed(self.p, self.kind) {
+            sh.consume(self.p);
+            Poll::Ready(())
+        } else {
+            // the driver polls again when it grants; no waker needed
+            Poll::Pending
+        }
+    }
+}
+
+fn opt(v: Option<SeqNum>) -> i64 {
+    v.map(|x| x as i64).unwrap_or(-1)
+}
+
+/// `LogStore` that delegates every call to the real `SqliteStore` and records it.
+#[derive(Clone)]
+struct VStore {
+    inner: SqliteStore,
+    p: usize,
+    sh: Shared,
+}
+
+impl VStore {
+    async fn gate(&self) {
+        Gate { sh: self.sh.clone(), p: self.p, kind: Kind::Store }.await
+    }
+}
+
+impl LogStore<Op, VerifyingKey, L, SeqNum, Hash> for VStore {
+    type Error = SqliteError;
+
+    async fn get_latest_entry(&self, author: &VerifyingKey, log_id: &L) -> Result<Option<Op>, SqliteError> {
+        <SqliteStore as LogStore<Op, VerifyingKey, L, SeqNum, Hash>>::get_latest_entry(&self.inner, author, log_id).await
+    }
+
+    async fn get_latest_entry_tx(&self, author: &VerifyingKey, log_id: &L) -> Result<Option<Op>, SqliteError> {
+        <SqliteStore as LogStore<Op, VerifyingKey, L, SeqNum, Hash>>::get_latest_entry_tx(&self.inner, author, log_id).await
+    }
+
+    async fn get_log_heights(&self, author: &VerifyingKey, logs: &[L]) -> Result<Option<BTreeMap<L, SeqNum>>, SqliteError> {
+        self.gate().await;
+        let r = <SqliteStore as LogStore<Op, VerifyingKey, L, SeqNum, Hash>>::get_log_heights(&self.inner, author, logs).await?;
+        let mut sh = self.sh.lock().unwrap();
+        let a = sh.world.author_idx.get(author).copied().unwrap_or(0);
+        let rows: Vec<Value> = r.iter().flatten().map(|(l, s)| json!([a, l, s])).collect();
+        sh.log.push(json!({"ev": "ReadHeights", "p": PEERS[self.p], "a": a, "logs": logs, "h": rows}));
+        Ok(r)
+    }
+
+    async fn get_log_size(
+        &self,
+        author: &VerifyingKey,
+        log_id: &L,
+        after: Option<SeqNum>,
+        until: Option<SeqNum>,
+    ) -> Result<Option<(u32, u32)>, SqliteError> {
+        self.gate().await;
+        let r = <SqliteStore as LogStore<Op, VerifyingKey, L, SeqNum, Hash>>::get_log_size(&self.inner, author, log_id, after, until).await?;
+        let mut sh = self.sh.lock().unwrap();
+        let a = sh.world.author_idx.get(author).copied().unwrap_or(0);
+        let (n, bytes) = r.unwrap_or((0, 0));
+        sh.log.push(json!({"ev": "ReadSize", "p": PEERS[self.p], "a": a, "l": log_id,
+                           "after": opt(after), "until": opt(until), "n": n, "bytes": bytes}));
+        Ok(r)
+    }
+
+    async fn get_log_entries(
+        &self,
+        author: &VerifyingKey,
+        log_id: &L,
+        after: Option<SeqNum>,
+        until: Option<SeqNum>,
+    ) -> Result<Option<Vec<(Op, Vec<u8>)>>, SqliteError> {
+        self.gate().await;
+        let r = <SqliteStore as LogStore<Op, VerifyingKey, L, SeqNum, Hash>>::get_log_entries(&self.inner, author, log_id, after, until).await?;
+        let mut sh = self.sh.lock().unwrap();
+        let a = sh.world.author_idx.get(author).copied().unwrap_or(0);
+        let seqs: Vec<u32> = r.iter().flatten().map(|(op, _)| op.header.seq_num).collect();
+        sh.log.push(json!({"ev": "ReadEntries", "p": PEERS[self.p], "a": a, "l": log_id,
+                           "after": opt(after), "until": opt(until), "seqs": seqs}));
+        Ok(r)
+    }
+
+    async fn prune_entries(&self, author: &VerifyingKey, log_id: &L, until: &SeqNum) -> Result<u64, SqliteError> {
+        <SqliteStore as LogStore<Op, VerifyingKey, L, SeqNum, Hash>>::prune_entries(&self.inner, author, log_id, until).await
+    }
+}
+
+struct VSink {
+    p: usize,
+    sh: Shared,
+}
+
+impl Sink<Msg> for VSink {
+    type Error = String;
+
+    fn poll_ready(self: Pin<&mut Self>, _cx: &mut Context<'_>) -> Poll<Result<(), String>> {
+        let mut sh = self.sh.lock().unwrap();
+        if sh.gone[1 - self.p] {
+            return Poll::Ready(Err("receiver dropped".into()));
+        }
+        if !sh.flushed(self.p) {
+            sh.blocked_send[self.p] = true;
+            return Poll::Pending;
+        }
+        if !sh.allowed(self.p, Kind::Send) {
+            return Poll::Pending;
+        }
+        Poll::Ready(Ok(()))
+    }
+
+    fn start_send(self: Pin<&mut Self>, item: Msg) -> Result<(), String> {
+        let mut sh = self.sh.lock().unwrap();
+        let p = self.p;
+        if sh.gone[1 - p] {
+            return Err("receiver dropped".into());
+        }
+        sh.consume(p);
+        let t = match &item {
+            LogSyncMessage::Have(_) => "Have",
+            LogSyncMessage::PreSync { .. } => "PreSync",
+            LogSyncMessage::Operation(..) => "Op",
+            LogSyncMessage::Done => "Done",
+        };
+        sh.last_put[p] = t;
+        sh.sent[p].push(t);
+        let m = sh.world.msg_json(&item);
+        sh.log.push(json!({"ev": "Send", "p": PEERS[p], "m": m}));
+        sh.chan[p].push_back(item);
+        Ok(())
+    }
+
+    fn poll_flush(self: Pin<&mut Self>, _cx: &mut Context<'_>) -> Poll<Result<(), String>> {
+        let mut sh = self.sh.lock().unwrap();
+        if sh.gone[1 - self.p] {
+            return Poll::Ready(Err("receiver dropped".into()));
+        }
+        if sh.flushed(self.p) {
+            Poll::Ready(Ok(()))
+        } else {
+            sh.blocked_send[self.p] = true;
+            Poll::Pending
+        }
+    }
+
+    fn poll_close(self: Pin<&mut Self>, _cx: &mut Context<'_>) -> Poll<Result<(), String>> {
+        Poll::Ready(Ok(()))
+    }
+}
+
+struct VStream {
+    p: usize,
+    sh: Shared,
+}
+
+impl Stream for VStream {
+    type Item = Result<Msg, String>;
+
+    fn poll_next(self: Pin<&mut Self>, _cx: &mut Context<'_>) -> Poll<Option<Self::Item>> {
+        let mut sh = self.sh.lock().unwrap();
+        let p = self.p;
+        let q = 1 - p;
+        if !sh.chan[q].is_empty() {
+            if !sh.allowed(p, Kind::Recv) {
+                return Poll::Pending;
+            }
+            sh.consume(p);
+            let m = sh.chan[q].pop_front().unwrap();
+            let mj = sh.world.msg_json(&m);
+            sh.log.push(json!({"ev": "Recv", "p": PEERS[p], "m": mj}));
+            return Poll::Ready(Some(Ok(m)));
+        }
+        if sh.gone[q] {
+            if !sh.eos_seen[p] {
+                if !sh.allowed(p, Kind::Recv) {
+                    return Poll::Pending;
+                }
+                sh.consume(p);
+                sh.eos_seen[p] = true;
+                sh.log.push(json!({"ev": "Eos", "p": PEERS[p]}));
+                return Poll::Ready(None);
+            }
+            sh.polls_after_eos[p] += 1;
+            if sh.polls_after_eos[p] > SPIN_LIMIT {
+                sh.spin[p] = true;
+                return Poll::Ready(Some(Err(format!("verif: stream polled {SPIN_LIMIT} times after its end"))));
+            }
+            return Poll::Ready(None);
+        }
+        sh.blocked_recv[p] = true;
+        Poll::Pending
+    }
+}
+
+// ------------------------------------------------------------------------------------------
+// One run: two sessions
+// ------------------------------------------------------------------------------------------
+
+#[derive(Clone, Debug, PartialEq)]
+enum Fin {
+    Ok,
+    Err(String),
+    Crashed,
+}
+
+type SessFut = Pin<Box<dyn Future<Output = Result<(), String>>>>;
+
+struct Run {
+    world: Arc<World>,
+    sh: Shared,
+    stores: [SqliteStore; 2],
+    fut: [Option<SessFut>; 2],
+    fin: [Option<Fin>; 2],
+    event_rx: [broadcast::Receiver<LogSyncEvent<E>>; 2],
+    n_events: [usize; 2],
+}
+
+#[derive(Debug, Default)]
+struct StepEnd {
+    new_events: usize,
+    finished: bool,
+    blocked: bool,
+}
+
+fn keys_to_logs(world: &World, keys: &[(usize, usize)]) -> Logs<L> {
+    let mut logs: Logs<L> = BTreeMap::new();
+    for (a, l) in keys {
+        logs.entry(world.vk(*a)).or_default().push(*l);
+    }
+    logs
+}
+
+impl Run {
+    fn new(world: Arc<World>, stores: &[SqliteStore; 2], cap: u64, slogs: [&[(usize, usize)]; 2]) -> Run {
+        let sh = Arc::new(Mutex::new(Sh {
+            world: world.clone(),
+            cap: if cap >= UNBOUNDED { None } else { Some(cap as usize) },
+            chan: [VecDeque::new(), VecDeque::new()],
+            gone: [false; 2],
+            grant: [Grant::Nothing; 2],
+            attempted: [None; 2],
+            blocked_send: [false; 2],
+            blocked_recv: [false; 2],
+            eos_seen: [false; 2],
+            polls_after_eos: [0; 2],
+            spin: [false; 2],
+            last_put: ["", ""],
+            sent: [Vec::new(), Vec::new()],
+            delivered: [Vec::new(), Vec::new()],
+            log: Vec::new(),
+        }));
+        let mut futs: Vec<Option<SessFut>> = Vec::new();
+        let mut rxs = Vec::new();
+        for p in 0..2 {
+            let (event_tx, event_rx) = broadcast::channel::<LogSyncEvent<E>>(8192);
+            let store = VStore { inner: stores[p].clone(), p, sh: sh.clone() };
+            let session: LogSync<L, E, VStore, LogSyncEvent<E>> = LogSync::new(store, keys_to_logs(&world, slogs[p]), event_tx);
+            let mut sink = VSink { p, sh: sh.clone() };
+            let mut stream = VStream { p, sh: sh.clone() };
+            let fut: SessFut = Box::pin(async move {
+                session.run(&mut sink, &mut stream).await.map(|_| ()).map_err(|e| format!("{e}"))
+            });
+            futs.push(Some(fut));
+            rxs.push(event_rx);
+        }
+        let rx1 = rxs.pop().unwrap();
+        let rx0 = rxs.pop().unwrap();
+        let f1 = futs.pop().unwrap();
+        let f0 = futs.pop().unwrap();
+        Run {
+            world,
+            sh,
+            stores: [stores[0].clone(), stores[1].clone()],
+            fut: [f0, f1],
+            fin: [None, None],
+            event_rx: [rx0, rx1],
+            n_events: [0, 0],
+        }
+    }
+
+    fn log_len(&self) -> usize {
+        self.sh.lock().unwrap().log.len()
+    }
+
+    fn push(&self, v: Value) {
+        self.sh.lock().unwrap().log.push(v);
+    }
+
+    fn grant(&self, p: usize, g: Grant) {
+        self.sh.lock().unwrap().grant[p] = g;
+    }
+
+    /// Broadcast events of p -> log
+    fn drain_events(&mut self, p: usize) {
+        loop {
+            match self.event_rx[p].try_recv() {
+                Ok(LogSyncEvent::OperationReceived { operation, .. }) => {
+                    let id = self.world.ids.get(&operation.hash).copied().unwrap_or((0, 0, 0));
+                    self.n_events[p] += 1;
+                    let mut sh = self.sh.lock().unwrap();
+                    sh.delivered[p].push(id);
+                    sh.log.push(json!({"ev": "Event", "p": PEERS[p], "op": [id.0, id.1, id.2], "idx": self.n_events[p]}));
+                }
+                Ok(LogSyncEvent::MetricsExchanged { metrics }) => {
+                    self.push(json!({"ev": "Metrics", "p": PEERS[p], "out": metrics.outbound_operations,
+                                     "inn": metrics.inbound_operations}));
+                }
+                Err(_) => break,
+            }
+        }
+    }
+
+    /// Polls session p until it has produced at least one event, has finished, or is blocked at
+    /// a gate / the transport.  Waiting for SQLite is real waiting.
+    async fn step(&mut self, p: usize) -> StepEnd {
+        let before = self.log_len();
+        let mut end = StepEnd::default();
+        if self.fut[p].is_none() {
+            end.finished = true;
+            return end;
+        }
+        let sh = self.sh.clone();
+        let fut = &mut self.fut[p];
+        let fin = &mut self.fin[p];
+        let r = poll_fn(|cx| {
+            {
+                let mut s = sh.lock().unwrap();
+                s.attempted[p] = None;
+                s.blocked_send[p] = false;
+                s.blocked_recv[p] = false;
+            }
+            let f = fut.as_mut().unwrap();
+            match f.as_mut().poll(cx) {
+                Poll::Ready(r) => {
+                    *fut = None;
+                    *fin = Some(match r {
+                        Ok(()) => Fin::Ok,
+                        Err(e) => Fin::Err(e),
+                    });
+                    Poll::Ready((true, false))
+                }
+                Poll::Pending => {
+                    let s = sh.lock().unwrap();
+                    if s.log.len() > before {
+                        Poll::Ready((false, false))
+                    } else if s.attempted[p].is_some() || s.blocked_send[p] || s.blocked_recv[p] {
+                        Poll::Ready((false, true))
+                    } else {
+                        Poll::Pending
+                    }
+                }
+            }
+        })
+        .await;
+        end.finished = r.0;
+        end.blocked = r.1;
+        self.drain_events(p);
+        if end.finished {
+            let fin = self.fin[p].clone().unwrap();
+            let mut s = self.sh.lock().unwrap();
+            if fin != Fin::Ok {
+                s.gone[p] = true;
+            }
+            let spin = s.spin[p];
+            s.log.push(json!({"ev": "End", "p": PEERS[p], "ok": fin == Fin::Ok, "spin": spin,
+                              "err": match &fin { Fin::Err(e) => e.clone(), _ => String::new() }}));
+        }
+        end.new_events = self.log_len() - before;
+        end
+    }
+
+    fn crash(&mut self, p: usize) {
+        self.fut[p] = None;
+        self.fin[p] = Some(Fin::Crashed);
+        let mut s = self.sh.lock().unwrap();
+        s.gone[p] = true;
+        s.log.push(json!({"ev": "Crash", "p": PEERS[p]}));
+    }
+
+    /// Concurrent store change on p's real store.  Returns the rows of the log afterwards.
+    async fn mutate(&mut self, p: usize, kind: &str, a: usize, l: usize, arg: u32) -> Vec<u32> {
+        let store = &self.stores[p];
+        let vk = self.world.vk(a);
+        match kind {
+            "prune" => {
+                <SqliteStore as LogStore<Op, VerifyingKey, L, SeqNum, Hash>>::prune_entries(store, &vk, &l, &arg)
+                    .await
+                    .expect("prune");
+            }
+            "delete" => {
+                let hash = self.world.ops[&(a, l, arg)].0.hash;
+                let permit = store.begin().await.expect("begin");
+                <SqliteStore as OperationStore<Op, Hash>>::delete_operation(store, &hash).await.expect("delete");
+                store.commit(permit).await.expect("commit");
+            }
+            "append" => insert_op(store, &self.world, (a, l, arg)).await,
+            _ => panic!("unknown mutation {kind}"),
+        }
+        let now = store_rows(store, &self.world, a, l).await;
+        self.push(json!({"ev": "Mutate", "p": PEERS[p], "kind": kind, "a": a, "l": l, "arg": arg, "now": now}));
+        now
+    }
+
+    fn active(&self, p: usize) -> bool {
+        self.fut[p].is_some()
+    }
+
+    /// Everything granted: run both sessions until neither moves.  Returns the number of events.
+    async fn free_run(&mut self) -> usize {
+        let before = self.log_len();
+        loop {
+            let mut progress = false;
+            for p in 0..2 {
+                if self.active(p) {
+                    self.grant(p, Grant::Free);
+                    let e = self.step(p).await;
+                    if e.new_events > 0 || e.finished {
+                        progress = true;
+                    }
+                }
+            }
+            if !progress {
+                break;
+            }
+        }
+        self.log_len() - before
+    }
+
+    /// Where a session that cannot move is waiting.
+    fn blocked_where(&self, p: usize) -> &'static str {
+        let s = self.sh.lock().unwrap();
+        if s.blocked_send[p] {
+            match s.last_put[p] {
+                "Have" => "send:Have",
+                "PreSync" => "send:PreSync",
+                "Op" => "send:Op",
+                "Done" => {
+                    if s.sent[p].len() > 2 || s.sent[p].contains(&"PreSync") { "send:Done" } else { "send:EarlyDone" }
+                }
+                _ => "send:?",
+            }
+        } else if s.blocked_recv[p] {
+            "recv"
+        } else {
+            "other"
+        }
+    }
+}
+
+/// Signature of a deadlock of the real sessions (both unfinished, none can move).
+fn deadlock_signature(run: &Run) -> String {
+    let cap = run.sh.lock().unwrap().cap;
+    let w: Vec<&str> = (0..2)
+        .map(|p| if run.active(p) { run.blocked_where(p) } else { "finished" })
+        .collect();
+    let in_burst = |x: &str| x == "send:Op" || x == "send:Done";
+    if in_burst(w[0]) && in_burst(w[1]) && cap.map(|c| c >= 1).unwrap_or(false) {
+        "deadlock:both-peers-in-SendBurst".to_string()
+    } else if w[0] == "send:Have" && w[1] == "send:Have" && cap == Some(0) {
+        "deadlock:cap0-both-peers-in-SendHave".to_string()
+    } else {
+        format!("deadlock:other:{}+{}", w[0], w[1])
+    }
+}
+
+/// C20 on what a real session wrote: Have (Done | PreSync Op* Done), nothing after Done.
+fn grammar_violation(sent: &[&'static str], finished_ok: bool) -> Option<&'static str> {
+    let dones = sent.iter().filter(|t| **t == "Done").count();
+    if dones > 1 {
+        return Some("done-sent-twice");
+    }
+    if let Some(i) = sent.iter().position(|t| *t == "Done") {
+        if i + 1 != sent.len() {
+            return Some("message-after-done");
+        }
+    }
+    if !sent.is_empty() && sent[0] != "Have" {
+        return Some("grammar");
+    }
+    if sent.len() >= 2 && sent[1] != "PreSync" && sent[1] != "Done" {
+        return Some("grammar");
+    }
+    if sent.len() >= 3 && (sent[1] != "PreSync" || sent[2..].iter().any(|t| *t != "Op" && *t != "Done")) {
+        return Some("grammar");
+    }
+    if finished_ok && sent.last() != Some(&"Done") {
+        return Some("ended-without-done");
+    }
+    None
+}
+
+// ------------------------------------------------------------------------------------------
+// Configurations
+// ------------------------------------------------------------------------------------------
+
+#[derive(Clone, Debug)]
+struct Config {
+    cap: u64,
+    content: [Content; 2],
+    slogs: [Vec<(usize, usize)>; 2],
+}
+
+fn parse_store(v: &Value) -> Content {
+    let mut c = Content::new();
+    for row in v.as_array().map(|a| a.as_slice()).unwrap_or(&[]) {
+        let a = row[0].as_u64().unwrap() as usize;
+        let l = row[1].as_u64().unwrap() as usize;
+        let seqs: Vec<u32> = row[2].as_array().map(|s| s.iter().map(|x| x.as_u64().unwrap() as u32).collect()).unwrap_or_default();
+        if !seqs.is_empty() {
+            c.insert((a, l), seqs);
+        }
+    }
+    c
+}
+
+fn parse_keys(v: &Value) -> Vec<(usize, usize)> {
+    v.as_array()
+        .map(|a| a.iter().map(|k| (k[0].as_u64().unwrap() as usize, k[1].as_u64().unwrap() as usize)).collect())
+        .unwrap_or_default()
+}
+
+fn store_json(c: &Content) -> Value {
+    Value::Array(c.iter().map(|((a, l), s)| json!([a, l, s])).collect())
+}
+
+fn keys_json(k: &[(usize, usize)]) -> Value {
+    Value::Array(k.iter().map(|(a, l)| json!([a, l])).collect())
+}
+
+/// C19 computed directly from the initial stores (the same definition as `Expected` in the spec).
+fn expected_delivery(cfg: &Config, p: usize) -> BTreeMap<(usize, usize), Vec<u32>> {
+    let q = 1 - p;
+    let mut out = BTreeMap::new();
+    for k in &cfg.slogs[q] {
+        let announced: i64 = if cfg.slogs[p].contains(k) {
+            cfg.content[p].get(k).and_then(|s| s.iter().max()).map(|m| *m as i64).unwrap_or(-1)
+        } else {
+            -1
+        };
+        let mut v: Vec<u32> = cfg.content[q].get(k).map(|s| s.iter().copied().filter(|s| *s as i64 > announced).collect()).unwrap_or_default();
+        v.sort();
+        if !v.is_empty() {
+            out.insert(*k, v);
+        }
+    }
+    out
+}
+
+fn delivered_by_log(d: &[OpId]) -> BTreeMap<(usize, usize), Vec<u32>> {
+    let mut out: BTreeMap<(usize, usize), Vec<u32>> = BTreeMap::new();
+    for (a, l, s) in d {
+        out.entry((*a, *l)).or_default().push(*s);
+    }
+    out
+}
+
+// ------------------------------------------------------------------------------------------
+// replay
+// ------------------------------------------------------------------------------------------
+
+fn first<'a>(v: &'a Value, key: &str) -> Option<&'a Value> {
+    v.get(key).and_then(|x| x.as_array()).and_then(|a| a.first())
+}
+
+fn kind_of(act: &str) -> Option<Kind> {
+    match act {
+        "ReadHeights" | "ReadSize" | "SyncNextAuthor" | "BurstReadLog" => Some(Kind::Store),
+        "PutHave" | "PutPreSync" | "BurstSendOp" | "SendDone" => Some(Kind::Send),
+        "ReceiveHave" | "ReceivePreSyncOrDone" | "SyncRecv" | "SyncRecvClosed" => Some(Kind::Recv),
+        _ => None,
+    }
+}
+
+/// Compares the events a step produced with the observable TLC computed for it.
+fn compare_step(step: &Value, evs: &[Value]) -> Result<(), String> {
+    let act = step["act"].as_str().unwrap_or("");
+    let find = |name: &str| evs.iter().find(|e| e["ev"] == name);
+    if let Some(put) = first(step, "put") {
+        let e = find("Send").ok_or_else(|| format!("{act}: expected to write {put}, nothing written; events {evs:?}"))?;
+        if &e["m"] != put {
+            return Err(format!("{act}: wrote {} where the specification writes {put}", e["m"]));
+        }
+    } else if let Some(e) = find("Send") {
+        return Err(format!("{act}: wrote {} where the specification writes nothing", e["m"]));
+    }
+    if let Some(took) = first(step, "took") {
+        let e = find("Recv").ok_or_else(|| format!("{act}: expected to take {took}, nothing taken; events {evs:?}"))?;
+        if &e["m"] != took {
+            return Err(format!("{act}: took {} where the specification takes {took}", e["m"]));
+        }
+    } else if let Some(e) = find("Recv") {
+        return Err(format!("{act}: took {} where the specification takes nothing", e["m"]));
+    }
+    if let Some(ev) = first(step, "ev") {
+        let e = find("Event").ok_or_else(|| format!("{act}: OperationReceived {ev} expected, none emitted"))?;
+        if &e["op"] != ev {
+            return Err(format!("{act}: emitted {} where the specification emits {ev}", e["op"]));
+        }
+    } else if let Some(e) = find("Event") {
+        return Err(format!("{act}: emitted OperationReceived {} where the specification emits nothing", e["op"]));
+    }
+    if let Some(read) = first(step, "read") {
+        match act {
+            "ReadHeights" => {
+                let e = find("ReadHeights").ok_or_else(|| format!("{act}: no get_log_heights call; events {evs:?}"))?;
+                if e["a"] != read["a"] || e["h"] != read["h"] {
+                    return Err(format!("get_log_heights: author {} -> {} where the specification has author {} -> {}", e["a"], e["h"], read["a"], read["h"]));
+                }
+            }
+            "ReadSize" => {
+                let e = find("ReadSize").ok_or_else(|| format!("{act}: no get_log_size call; events {evs:?}"))?;
+                let r = &read["r"];
+                if e["a"] != r["a"] || e["l"] != r["l"] || e["after"] != r["after"] || e["until"] != r["until"] || e["n"] != read["n"] {
+                    return Err(format!("get_log_size: {e} where the specification has {read}"));
+                }
+                if (e["n"].as_u64() == Some(0)) != (e["bytes"].as_u64() == Some(0)) {
+                    return Err(format!("get_log_size: count and bytes disagree about emptiness: {e}"));
+                }
+            }
+            _ => {
+                let e = find("ReadEntries").ok_or_else(|| format!("{act}: no get_log_entries call; events {evs:?}"))?;
+                let r = &read["r"];
+                if e["a"] != r["a"] || e["l"] != r["l"] || e["after"] != r["after"] || e["until"] != r["until"] || e["seqs"] != read["seqs"] {
+                    return Err(format!("get_log_entries: {e} where the specification has {read}"));
+                }
+            }
+        }
+    }
+    Ok(())
+}
+
+struct ReplayCtx {
+    world: Arc<World>,
+    stores: [SqliteStore; 2],
+    prop: String,
+}
+
+enum ReplayEnd {
+    Done,
+    /// the real select! took the other ready branch: the behaviour cannot be forced
+    AbandonedAtSelect,
+}
+
+async fn replay_one(ctx: &ReplayCtx, beh: &Value, out: &mut Outcome) -> ReplayEnd {
+    let cfg = Config {
+        cap: beh["cap"].as_u64().unwrap_or(UNBOUNDED),
+        content: [parse_store(&beh["storeA"]), parse_store(&beh["storeB"])],
+        slogs: [parse_keys(&beh["logsA"]), parse_keys(&beh["logsB"])],
+    };
+    for p in 0..2 {
+        fill_store(&ctx.stores[p], &ctx.world, &cfg.content[p]).await;
+    }
+    let mut run = Run::new(ctx.world.clone(), &ctx.stores, cfg.cap, [&cfg.slogs[0], &cfg.slogs[1]]);
+    let prop = ctx.prop.as_str();
+    let mut mutated = false;
+    let mut crashed = false;
+    let mut early = [false; 2];
+    let steps = beh["steps"].as_array().cloned().unwrap_or_default();
+    macro_rules! mismatch {
+        ($sig:expr, $detail:expr) => {{
+            out.violation(prop, $sig, $detail, beh.clone());
+            return ReplayEnd::Done;
+        }};
+    }
+    for (i, step) in steps.iter().enumerate() {
+        let act = step["act"].as_str().unwrap_or("");
+        let p = peer_idx(step["p"].as_str().unwrap_or("A"));
+        let at = format!("step {} {}({})", i + 1, act, PEERS[p]);
+        match act {
+            "Start" => continue,
+            "Mutate" => {
+                mutated = true;
+                let now = run
+                    .mutate(p, step["kind"].as_str().unwrap(), step["a"].as_u64().unwrap() as usize,
+                            step["l"].as_u64().unwrap() as usize, step["arg"].as_u64().unwrap() as u32)
+                    .await;
+                if json!(now) != step["now"] {
+                    mismatch!("mismatch:Mutate", format!("{at}: store log is {now:?} after the mutation, specification has {}", step["now"]));
+                }
+                continue;
+            }
+            "Crash" => {
+                crashed = true;
+                run.crash(p);
+                continue;
+            }
+            _ => {}
+        }
+        let before = run.log_len();
+        let expect_pc = step["pc"].as_str().unwrap_or("");
+        let finishing = matches!(expect_pc, "End" | "Failed" | "Spin");
+        if kind_of(act).is_none() && early[p] {
+            // the unobservable last step was taken right after the previous event of p
+            let fin = run.fin[p].clone().unwrap();
+            let spin = run.sh.lock().unwrap().spin[p];
+            let ok = match expect_pc {
+                "End" => fin == Fin::Ok,
+                "Spin" => spin,
+                _ => matches!(fin, Fin::Err(_)) && !spin,
+            };
+            if !ok {
+                mismatch!(&format!("mismatch:{act}"), format!("{at}: specification reaches {expect_pc}, `run` returned {fin:?}"));
+            }
+            continue;
+        }
+        match kind_of(act) {
+            Some(k) => run.grant(p, Grant::One(k)),
+            // SyncElse / SinkFail: no observable but the return of `run`; a spin needs the end of
+            // the stream to be readable
+            None => run.grant(p, if expect_pc == "Spin" { Grant::One(Kind::Recv) } else { Grant::Nothing }),
+        }
+        let end = run.step(p).await;
+        let evs: Vec<Value> = run.sh.lock().unwrap().log[before..].to_vec();
+        let produced = evs.iter().any(|e| matches!(e["ev"].as_str(), Some("Send" | "Recv" | "Eos" | "ReadHeights" | "ReadSize" | "ReadEntries")));
+        if kind_of(act).is_some() && !produced && !end.finished {
+            let attempted = run.sh.lock().unwrap().attempted[p];
+            if act == "SyncRecv" && matches!(attempted, Some(Kind::Store) | Some(Kind::Send)) {
+                out.count("abandoned_at_select");
+                return ReplayEnd::AbandonedAtSelect;
+            }
+            mismatch!(&format!("mismatch:{act}"),
+                      format!("{at}: the session does not take this step (blocked at {:?}, waiting in {})", attempted, run.blocked_where(p)));
+        }
+        if let Err(e) = compare_step(step, &evs) {
+            mismatch!(&format!("mismatch:{act}"), format!("{at}: {e}"));
+        }
+        // return value
+        if finishing {
+            if !end.finished {
+                mismatch!(&format!("mismatch:{act}"), format!("{at}: specification reaches {expect_pc}, `run` has not returned (waiting in {})", run.blocked_where(p)));
+            }
+            let fin = run.fin[p].clone().unwrap();
+            let spin = run.sh.lock().unwrap().spin[p];
+            let ok = match expect_pc {
+                "End" => fin == Fin::Ok,
+                "Spin" => spin,
+                _ => matches!(fin, Fin::Err(_)) && !spin,
+            };
+            if !ok {
+                mismatch!(&format!("mismatch:{act}"), format!("{at}: specification reaches {expect_pc}, `run` returned {fin:?} (spin detected: {spin})"));
+            }
+            if spin {
+                out.violation("C21", "spin:sync-loop-after-stream-closure",
+                    format!("{at}: the Sync loop polled the closed stream {SPIN_LIMIT} times without awaiting (busy spin, never returns)"), beh.clone());
+            }
+        } else if end.finished {
+            // `run` may return right after this event if the specification's next step of p is the
+            // unobservable last one (SyncElse / SinkFail have no await of their own)
+            let next = steps[i + 1..].iter().find(|s| s["p"] == step["p"] && s["act"] != "Mutate" && s["act"] != "Crash");
+            let silent_end = next.map(|n| kind_of(n["act"].as_str().unwrap_or("")).is_none()
+                && matches!(n["pc"].as_str(), Some("End" | "Failed"))).unwrap_or(false);
+            if !silent_end {
+                mismatch!(&format!("mismatch:{act}"), format!("{at}: `run` returned {:?} where the specification continues in {expect_pc}", run.fin[p]));
+            }
+            early[p] = true;
+        }
+    }
+    // the behaviour ended where no peer can step
+    let fin = &beh["final"];
+    let moved = run.free_run().await;
+    if moved > 0 {
+        let evs: Vec<Value> = { let s = run.sh.lock().unwrap(); s.log[s.log.len() - moved..].to_vec() };
+        mismatch!("mismatch:final", format!("specification is quiescent ({fin}) but the sessions still move: {evs:?}"));
+    }
+    for p in 0..2 {
+        let want = fin[PEERS[p]].as_str().unwrap_or("");
+        let got = match &run.fin[p] {
+            None => "active",
+            Some(Fin::Ok) => "End",
+            Some(Fin::Err(_)) => if run.sh.lock().unwrap().spin[p] { "Spin" } else { "Failed" },
+            Some(Fin::Crashed) => "Crashed",
+        };
+        let same = match want {
+            "End" | "Failed" | "Crashed" | "Spin" => want == got,
+            _ => got == "active",
+        };
+        if !same {
+            mismatch!("mismatch:final", format!("peer {} ends in {want} in the specification, real session: {got}", PEERS[p]));
+        }
+    }
+    let stuck = (0..2).any(|p| run.active(p));
+    if stuck != fin["stuck"].as_bool().unwrap_or(false) {
+        mismatch!("mismatch:final", format!("specification stuck={} real stuck={stuck}", fin["stuck"]));
+    }
+    if stuck {
+        out.count("deadlocks");
+        let sig = deadlock_signature(&run);
+        let spec_sig = if fin["burst"] == true { "deadlock:both-peers-in-SendBurst" }
+            else if fin["handshake"] == true { "deadlock:cap0-both-peers-in-SendHave" } else { "deadlock:other" };
+        if !sig.starts_with(spec_sig) {
+            mismatch!("mismatch:final", format!("deadlock class differs: specification {spec_sig}, real sessions {sig}"));
+        }
+        out.violation("C21", &sig, format!("sessions never complete: cap {} ; A waits in {}, B waits in {}",
+            cfg.cap, run.blocked_where(0), run.blocked_where(1)), beh.clone());
+    }
+    // direct evaluation of the properties on the real observations
+    let sh = run.sh.lock().unwrap();
+    for p in 0..2 {
+        if let Some(g) = grammar_violation(&sh.sent[p], run.fin[p] == Some(Fin::Ok)) {
+            out.violation("C20", &format!("c20:{g}"), format!("peer {} wrote {:?}", PEERS[p], sh.sent[p]), beh.clone());
+        }
+    }
+    if run.fin[0] == Some(Fin::Ok) && run.fin[1] == Some(Fin::Ok) {
+        out.count("completed");
+        if sh.chan.iter().any(|c| !c.is_empty()) {
+            out.violation("C20", "c20:stray-message-after-end", format!("messages left in the transport after both sessions ended: {} / {}", sh.chan[0].len(), sh.chan[1].len()), beh.clone());
+        }
+        if !mutated && !crashed {
+            for p in 0..2 {
+                let want = expected_delivery(&cfg, p);
+                let got = delivered_by_log(&sh.delivered[p]);
+                if want != got {
+                    out.violation("C19", "c19:delivery-differs", format!("peer {} was given {got:?}, must be given {want:?}", PEERS[p]), beh.clone());
+                }
+            }
+        }
+    }
+    ReplayEnd::Done
+}
+
+fn world_bounds(behs: &[Value]) -> (usize, usize, u32) {
+    let (mut na, mut nl, mut ms) = (1usize, 1usize, 0u32);
+    for b in behs {
+        for key in ["storeA", "storeB"] {
+            for row in b[key].as_array().map(|a| a.as_slice()).unwrap_or(&[]) {
+                na = na.max(row[0].as_u64().unwrap_or(1) as usize);
+                nl = nl.max(row[1].as_u64().unwrap_or(1) as usize);
+                for s in row[2].as_array().map(|a| a.as_slice()).unwrap_or(&[]) {
+                    ms = ms.max(s.as_u64().unwrap_or(0) as u32);
+                }
+            }
+        }
+    }
+    // room for ConcurrentAppend
+    (na, nl, ms + 2)
+}
+
+fn replay(args: &Args) {
+    let input = args.input.clone().expect("--in");
+    let behs = read_ndjson(&input);
+    let prop = args.extra.get("prop").cloned().unwrap_or_else(|| "C19".into());
+    let mut out = Outcome::new(
+        args,
+        "one evaluation = one TLC behaviour executed step by step on two real LogSync sessions over real SqliteStores; \
+         distinct = distinct (capacity, stores, mutation/crash steps, schedule) behaviours that ran to their last step",
+    );
+    let rt = tokio::runtime::Builder::new_current_thread().enable_all().build().expect("runtime");
+    rt.block_on(async {
+        let (na, nl, ms) = world_bounds(&behs);
+        let mut rng = Rng::new(args.seed ^ 0x106);
+        let world = Arc::new(World::new(na, nl, ms, &mut rng));
+        let ctx = ReplayCtx { world, stores: [SqliteStore::temporary().await, SqliteStore::temporary().await], prop };
+        for beh in &behs {
+            out.eval();
+            match replay_one(&ctx, beh, &mut out).await {
+                ReplayEnd::Done => {
+                    out.mark_distinct(beh.to_string());
+                    out.count("followed_to_the_end");
+                }
+                ReplayEnd::AbandonedAtSelect => {}
+            }
+            if out.samples.is_empty() {
+                out.sample(json!({"cap": beh["cap"], "storeA": beh["storeA"], "storeB": beh["storeB"],
+                                  "steps": beh["steps"].as_array().map(|s| s.len()), "final": beh["final"]}));
+            }
+        }
+    });
+    out.write(args);
+}
+
+// ------------------------------------------------------------------------------------------
+// record
+// ------------------------------------------------------------------------------------------
+
+fn random_log(rng: &mut Rng, max_h: u32) -> Vec<u32> {
+    match rng.below(10) {
+        0..=2 => vec![],
+        3..=6 => (0..=rng.range(0, max_h as u64) as u32).collect(),
+        _ => {
+            let hi = rng.range(0, max_h as u64) as u32;
+            let lo = rng.range(0, hi as u64) as u32;
+            (lo..=hi).collect()
+        }
+    }
+}
+
+fn random_config(rng: &mut Rng, focus: &str, na: usize, nl: usize, max_h: u32) -> Config {
+    let used_a = rng.range(1, na as u64) as usize;
+    let used_l = rng.range(1, nl as u64) as usize;
+    let mut content = [Content::new(), Content::new()];
+    let empty_side = rng.chance(1, 8);
+    let small = rng.chance(1, 2);
+    let h = if small { 3.min(max_h) } else { max_h };
+    for a in 1..=used_a {
+        for l in 1..=used_l {
+            // both replicas hold pieces of the same honest chain
+            for p in 0..2 {
+                if empty_side && p == 1 {
+                    continue;
+                }
+                let v = random_log(rng, h);
+                if !v.is_empty() {
+                    content[p].insert((a, l), v);
+                }
+            }
+            // sometimes identical logs (nothing to do for this log)
+            if rng.chance(1, 6) {
+                if let Some(v) = content[0].get(&(a, l)).cloned() {
+                    content[1].insert((a, l), v);
+                }
+            }
+        }
+    }
+    let all: Vec<(usize, usize)> = (1..=used_a).flat_map(|a| (1..=used_l).map(move |l| (a, l))).collect();
+    let mut slogs = [all.clone(), all.clone()];
+    // sometimes one session is configured without some log (it does not know the log belongs
+    // to the topic yet)
+    if rng.chance(1, 5) && all.len() > 1 {
+        let p = rng.below(2) as usize;
+        let drop = rng.below(all.len() as u64) as usize;
+        slogs[p].remove(drop);
+    }
+    let cap = match focus {
+        "c21" => *rng.pick(&[0u64, 1, 1, 2, 2, 3, 5, 8, UNBOUNDED]),
+        _ => *rng.pick(&[UNBOUNDED, UNBOUNDED, 1000]),
+    };
+    Config { cap, content, slogs }
+}
+
+async fn record_one(
+    world: &Arc<World>,
+    stores: &[SqliteStore; 2],
+    cfg: &Config,
+    focus: &str,
+    rng: &mut Rng,
+    max_h: u32,
+    out: &mut Outcome,
+) -> Vec<Value> {
+    for p in 0..2 {
+        fill_store(&stores[p], world, &cfg.content[p]).await;
+    }
+    let mut run = Run::new(world.clone(), stores, cfg.cap, [&cfg.slogs[0], &cfg.slogs[1]]);
+    run.push(json!({"ev": "Reset", "cap": cfg.cap, "storeA": store_json(&cfg.content[0]), "storeB": store_json(&cfg.content[1]),
+                    "logsA": keys_json(&cfg.slogs[0]), "logsB": keys_json(&cfg.slogs[1])}));
+    run.push(json!({"ev": "Start", "p": "A"}));
+    run.push(json!({"ev": "Start", "p": "B"}));
+    let mut muts_left = match focus {
+        "c20" => rng.range(1, 3),
+        "c21" => rng.below(2),
+        _ => 0,
+    };
+    let mut crash_left = focus == "c21" && rng.chance(1, 4);
+    let mut mutated = false;
+    let mut crashed = false;
+    // current content of the stores (to choose effective mutations)
+    let mut now = cfg.content.clone();
+    let bias = rng.range(1, 9); // scheduling bias towards A, in tenths
+    let withhold = rng.below(4); // in quarters: probability that an inbound message stays in flight
+    let mut idle_rounds = 0;
+    let mut stuck = false;
+    loop {
+        if !run.active(0) && !run.active(1) {
+            break;
+        }
+        // concurrent store change
+        if muts_left > 0 && rng.chance(1, 6) {
+            let p = rng.below(2) as usize;
+            let keys: Vec<(usize, usize)> = cfg.slogs[p].clone();
+            if run.active(p) && !keys.is_empty() {
+                let (a, l) = *rng.pick(&keys);
+                let rows = now[p].get(&(a, l)).cloned().unwrap_or_default();
+                let choice = rng.below(3);
+                let m: Option<(&str, u32)> = if choice == 0 && !rows.is_empty() {
+                    // prune below a point, sometimes the whole log
+                    let top = *rows.iter().max().unwrap();
+                    let n = if rng.chance(1, 3) { top + 1 } else { rng.range(1, top as u64 + 1) as u32 };
+                    Some(("prune", n))
+                } else if choice == 1 && !rows.is_empty() {
+                    Some(("delete", *rng.pick(&rows)))
+                } else {
+                    let next = rows.iter().max().map(|m| m + 1).unwrap_or(0);
+                    if next <= max_h + 1 { Some(("append", next)) } else { None }
+                };
+                if let Some((kind, arg)) = m {
+                    let after = run.mutate(p, kind, a, l, arg).await;
+                    now[p].insert((a, l), after);
+                    muts_left -= 1;
+                    mutated = true;
+                    out.count(&format!("mutate_{kind}"));
+                }
+            }
+        }
+        if crash_left && rng.chance(1, 25) {
+            let p = rng.below(2) as usize;
+            if run.active(p) {
+                run.crash(p);
+                crash_left = false;
+                crashed = true;
+                out.count("crashes");
+                continue;
+            }
+        }
+        let p = if rng.below(10) < bias { 0 } else { 1 };
+        let p = if run.active(p) { p } else { 1 - p };
+        let g = if rng.below(4) < withhold { Grant::AnyButRecv } else { Grant::Any };
+        run.grant(p, g);
+        let e = run.step(p).await;
+        if e.new_events > 0 || e.finished {
+            idle_rounds = 0;
+            continue;
+        }
+        idle_rounds += 1;
+        if idle_rounds >= 4 {
+            // nothing moves under the random grants: decide with everything granted
+            if run.free_run().await == 0 {
+                stuck = run.active(0) || run.active(1);
+                break;
+            }
+            idle_rounds = 0;
+        }
+    }
+    if stuck {
+        run.push(json!({"ev": "Stuck"}));
+        out.count("deadlocks");
+        let sig = deadlock_signature(&run);
+        out.violation("C21", &sig, format!("sessions never complete: cap {} ; A waits in {}, B waits in {}",
+            cfg.cap, run.blocked_where(0), run.blocked_where(1)),
+            json!({"cap": cfg.cap, "storeA": store_json(&cfg.content[0]), "storeB": store_json(&cfg.content[1])}));
+    }
+    let sh = run.sh.lock().unwrap();
+    let case = json!({"cap": cfg.cap, "storeA": store_json(&cfg.content[0]), "storeB": store_json(&cfg.content[1]),
+                      "logsA": keys_json(&cfg.slogs[0]), "logsB": keys_json(&cfg.slogs[1]), "events": sh.log.len()});
+    for p in 0..2 {
+        if sh.spin[p] {
+            out.violation("C21", "spin:sync-loop-after-stream-closure",
+                format!("peer {}: the Sync loop polled the closed stream {SPIN_LIMIT} times without awaiting (busy spin, never returns)", PEERS[p]), case.clone());
+        }
+        if let Some(g) = grammar_violation(&sh.sent[p], run.fin[p] == Some(Fin::Ok)) {
+            out.violation("C20", &format!("c20:{g}"), format!("peer {} wrote {:?}", PEERS[p], sh.sent[p]), case.clone());
+        }
+    }
+    if run.fin[0] == Some(Fin::Ok) && run.fin[1] == Some(Fin::Ok) {
+        out.count("completed");
+        if sh.chan.iter().any(|c| !c.is_empty()) {
+            out.violation("C20", "c20:stray-message-after-end", "messages left in the transport after both sessions ended".into(), case.clone());
+        }
+        if !mutated && !crashed {
+            for p in 0..2 {
+                let want = expected_delivery(cfg, p);
+                let got = delivered_by_log(&sh.delivered[p]);
+                if want != got {
+                    out.violation("C19", "c19:delivery-differs", format!("peer {} was given {got:?}, must be given {want:?}", PEERS[p]), case.clone());
+                }
+            }
+        }
+    }
+    let recv_during_burst = sh.log.iter().filter(|e| e["ev"] == "Recv").count();
+    out.count_by("recv_events", recv_during_burst as u64);
+    out.mark_distinct(format!("{}|{}|{}", cfg.cap, store_json(&cfg.content[0]), store_json(&cfg.content[1])));
+    if out.samples.is_empty() {
+        out.sample(case);
+    }
+    sh.log.clone()
+}
+
+fn record(args: &Args) {
+    let focus = args.extra.get("focus").cloned().unwrap_or_else(|| "c19".into());
+    let na = args.extra_usize("authors", 8);
+    let nl = args.extra_usize("logs", 3);
+    let max_h = args.extra_usize("maxh", 40) as u32;
+    let mut out = Outcome::new(
+        args,
+        "one evaluation = one seeded random pair of replicas synced by two real LogSync sessions under a random schedule \
+         (plus random concurrent prune/delete/append and crash where the property asks for them); distinct = distinct (capacity, stores) pairs",
+    );
+    let path = args.out.clone().expect("--out");
+    let mut tw = TraceWriter::create(&path);
+    let rt = tokio::runtime::Builder::new_current_thread().enable_all().build().expect("runtime");
+    rt.block_on(async {
+        let mut rng = Rng::new(args.seed ^ 0x5106);
+        let world = Arc::new(World::new(na, nl, max_h + 2, &mut rng));
+        let stores = [SqliteStore::temporary().await, SqliteStore::temporary().await];
+        for _ in 0..args.n.max(1) {
+            let cfg = random_config(&mut rng, &focus, na, nl, max_h);
+            out.eval();
+            let log = record_one(&world, &stores, &cfg, &focus, &mut rng, max_h, &mut out).await;
+            for e in log {
+                tw.event(e);
+            }
+        }
+    });
+    let (events, runs) = tw.finish();
+    out.set_trace(events, runs);
+    out.write(args);
+}
+
+pub fn run(args: &Args) {
+    match args.mode.as_str() {
+        "replay" => replay(args),
+        "record" => record(args),
+        _ => vh_common::unknown(args),
+    }
 }
